@@ -305,7 +305,12 @@ let run_reg (f : string list) (impl : string) (variant : string) : string =
     let capi = int_of_string cap in
     let capeff = if capi = 0 then 10000 else capi in
     let parsed = List.mapi (fun i tok -> match String.split_on_char '@' tok with
-        | [name; kind; nl; prog] -> (i, name, kind, int_of_string nl, parse_prog prog)
+        | [name; kind; nl; prog] ->
+          (* label-name list: "<n>" = l0..l(n-1), "L1.0" = the listed indices in that order *)
+          let labels = if String.length nl > 0 && nl.[0] = 'L'
+            then List.map int_of_string (String.split_on_char '.' (String.sub nl 1 (String.length nl - 1)))
+            else List.init (int_of_string nl) (fun i -> i) in
+          (i, name, kind, labels, parse_prog prog)
         | _ -> failwith "bad reg thread") ths in
     let names = List.sort_uniq compare (List.map (fun (_, n, _, _, _) -> n) parsed) in
     let limit = 3_000_000 in
@@ -313,7 +318,7 @@ let run_reg (f : string list) (impl : string) (variant : string) : string =
     (try
       let sets = List.map (fun name ->
           let mine = List.filter (fun (_, n, _, _, _) -> n = name) parsed in
-          let opts_of (_, n, k, nl, _) = { ro_name = n_of_int (Char.code n.[0]); ro_kind = kind_of k; ro_nl = nat_of_int nl } in
+          let opts_of (_, n, k, nl, _) = { ro_name = n_of_int (Char.code n.[0]); ro_kind = kind_of k; ro_nl = List.map nat_of_int nl } in
           let os = List.map opts_of mine in
           let preo = if pre = "1" then Some (List.hd os) else None in
           let outs = reg_outcomes rv preo os in
@@ -326,7 +331,7 @@ let run_reg (f : string list) (impl : string) (variant : string) : string =
                 Hashtbl.replace set (name ^ ":reg=0,1;m=;c=0;d=0;u=0;s=0;lost=0;" ^ String.concat ";" ts) ()
               | Some o ->
                 let progs = List.map2 (fun (_, _, _, _, p) r -> match r with RROk _ -> p | _ -> []) mine res in
-                let mk v = mk_cfg (kind_tok o.rb_kind) capi (int_of_nat o.rb_nl) [z_of_int 1; z_of_int 5] v in
+                let mk v = mk_cfg (kind_tok o.rb_kind) capi (List.length o.rb_nl) [z_of_int 1; z_of_int 5] v in
                 let rr = reachable_memo (mk "repaired") progs limit in
                 let rd = if variant = "defective" then reachable_memo (mk "defective") progs limit else Hashtbl.create 1 in
                 let add o' =
